@@ -110,6 +110,7 @@ class Exec:
         self.sym_names: dict = {}
         self.pattern_names: dict = {}
         self.callee_stats: dict = {}
+        self.executed: set = set()
         from .intrinsics import Intrinsics
 
         self.intr = Intrinsics(self)
@@ -354,8 +355,14 @@ class Exec:
                     else:
                         out.append(nm)
             return out
+        if getattr(exc, "pyclass", None) is not None:
+            return [k.__name__ for k in exc.pyclass.__mro__]
         if exc.cls in _BUILTIN_EXC:
             return [k.__name__ for k in _BUILTIN_EXC[exc.cls].__mro__]
+        if exc.cls == "InvalidOperation":
+            import decimal
+
+            return [k.__name__ for k in decimal.InvalidOperation.__mro__]
         return [exc.cls, "Exception", "BaseException"]
 
     def raise_builtin(self, name, primitive=""):
@@ -461,6 +468,7 @@ class Exec:
             self.exec_stmt(st, frame)
 
     def exec_stmt(self, st, frame):
+        self.executed.add(id(st))
         m = getattr(self, "st_" + type(st).__name__, None)
         if m is None:
             raise Unsupported(f"statement {type(st).__name__} at line {st.lineno}")
@@ -1442,7 +1450,9 @@ class Exec:
         try:
             return thunk()
         except Exception as e:  # noqa: BLE001
-            self.raise_builtin(type(e).__name__, "concrete operation")
+            exc = ExcVal(type(e).__name__)
+            exc.pyclass = type(e)
+            raise RaiseSig(exc, primitive=f"concrete operation: {type(e).__name__}: {str(e)[:60]}")
 
     def ex_BinOp(self, node, frame):
         a = self.eval(node.left, frame)
@@ -1516,15 +1526,16 @@ class Exec:
             if isinstance(b, bool):
                 return True if b else self.to_bool_value(z3.Not(a))
             return SBool(z3.Implies(a, b))
-        if self.pure and isinstance(node.func, ast.Name) and node.func.id in ("forall", "exists") and len(node.args) == 1 and isinstance(node.args[0], ast.Lambda):
+        if self.pure and isinstance(node.func, ast.Name) and node.func.id in ("forall", "exists") and len(node.args) in (1, 2) and isinstance(node.args[0], ast.Lambda):
             lam = node.args[0]
             names = [a.arg for a in lam.args.args]
+            kind = node.args[1].value if len(node.args) == 2 and isinstance(node.args[1], ast.Constant) else "int"
             self.qn = getattr(self, "qn", 0) + 1
-            bound = [z3.Int(f"{n}?{self.qn}") for n in names]
+            bound = [z3.Const(f"{n}?{self.qn}", ELEM_SORT[kind]) for n in names]
             fr = Frame(frame.mod, parent=frame, cls=frame.cls, fname=frame.fname)
             fr.old = getattr(frame, "old", None)
             for n, b in zip(names, bound):
-                fr.locals[n] = SInt(b)
+                fr.locals[n] = wrap(b, kind)
             body = self.truth(self.eval(lam.body, fr))
             if isinstance(body, bool):
                 return body
@@ -1729,7 +1740,7 @@ class Exec:
             and not self.registry[target].always_inline
         ):
             return self.apply_contract(self.registry[target], fref, args, kwargs)
-        if target and target == self.contract.target and self.depth > 0 and target in self.registry:
+        if target and target == self.contract.target and self.depth > 0 and target in self.registry and not getattr(fref, "undecorated", False):
             # recursive call: use own contract (induction on call depth)
             return self.apply_contract(self.registry[target], fref, args, kwargs)
         if target:
